@@ -255,3 +255,74 @@ class FakeReader:
 
 def fake_core(writer=FakeWriter, reader=FakeReader):
     return types.SimpleNamespace(data=types.SimpleNamespace(EoWriter=writer, EoReader=reader))
+
+
+# ---------------------------------------------------------------------------------------------
+# bounded JSON-level minimisation of a reported case (DESIGN 2.4), after Hypothesis' own shrink
+
+def _candidates(x):
+    """Yields (smaller copy of x) with one simplification somewhere inside; outermost first."""
+    if isinstance(x, list):
+        for i in range(len(x)):
+            yield x[:i] + x[i + 1:]
+        for i, el in enumerate(x):
+            for c in _candidates(el):
+                yield x[:i] + [c] + x[i + 1:]
+    elif isinstance(x, dict):
+        for k in sorted(x):
+            for c in _candidates(x[k]):
+                y = dict(x)
+                y[k] = c
+                yield y
+    elif isinstance(x, str):
+        if len(x) > 1:
+            yield x[: len(x) // 2]
+            yield x[len(x) // 2:]
+        for i in range(len(x)):
+            yield x[:i] + x[i + 1:]
+        for i, ch in enumerate(x):
+            if ch != "a":
+                yield x[:i] + "a" + x[i + 1:]
+    elif isinstance(x, bool):
+        if x:
+            yield False
+    elif isinstance(x, int):
+        if x:
+            yield 0
+            if x > 1:
+                yield x // 2
+                yield x - 1
+
+
+def minimise_last_violation(res, in_domain, check, budget=300):
+    """`check(case)` raises Violation or returns. Replaces the last recorded violation of `res` by
+    the smallest in-domain case found (same clause) within `budget` re-runs. Deterministic."""
+    from .runner import Violation
+
+    if not res.violations:
+        return
+    cur = res.violations[-1]
+    clause = cur["clause"]
+
+    def attempt(case):
+        if not in_domain(case):
+            return None
+        try:
+            check(case)
+        except Violation as v:
+            return v.to_json() if v.clause == clause else None
+        return None
+
+    progress = True
+    while progress and budget > 0:
+        progress = False
+        for cand in _candidates(cur["case"]):
+            budget -= 1
+            got = attempt(cand)
+            if got is not None:
+                cur = got
+                progress = True
+                break
+            if budget <= 0:
+                break
+    res.violations[-1] = cur
